@@ -122,6 +122,10 @@ impl HistoryProp for P07 {
         for i in 0..sim.outstanding.len() {
             v.push(Act::Respond(i, Size::Small));
         }
+        if self.batches && sim.gens.iter().any(|g| !g.supplied.is_empty()) {
+            // the application flushes at an arbitrary moment
+            v.push(Act::Flush);
+        }
         if self.batches && sim.outstanding.len() >= 2 {
             // the permutation is a function of the history so far (replayable)
             v.push(Act::RespondBatch(2 + (sim.step as u64) * 7919 + sim.outstanding.len() as u64, Size::Small));
@@ -238,6 +242,7 @@ fn choose(rng: &mut Rng, sim: &Sim, en: &[Act]) -> Option<Act> {
             Act::ShutRd(_) | Act::ShutWr(_) => 1,
             Act::Drain(_) => 5,
             Act::RespondBatch(_, _) => 2 + sim.outstanding.len().min(12),
+            Act::Flush => 3,
             Act::Respond(i, _) => {
                 // late answers to connections that are gone are the interesting ones
                 let gone = sim.outstanding[*i].gen_idx.map(|gi| sim.gens[gi].client_closed).unwrap_or(false);
